@@ -336,6 +336,29 @@ def energy_theorem(chk, repo, it, m):
                     okl = False
             chk.ob('R05.5', f'{cname} (l={lv}): the limit formula is the K -> infinity limit of the repository\'s sensitivity_to_shear along solutions of this class (evaluated at K = 1e30)', okl and nl > 0,
                    'the extracted kernel at K = 1e30 differs from the limit formula', m.where(fs), key=f'R05.5|limit|{cname} (l={lv})', method='float evaluation of the extracted kernel at a pinned, very large K')
+    # (a") R05.13 the kernels depend on the grid they are given NOW: called for a grid A and then, in the same interpreter state, for a grid B with the same number of slices and
+    #      the same end points but another interior spacing (a layered grid after a uniform one), they return for B what they return for B in a fresh state (a table of finite-
+    #      difference weights remembered under a key that does not identify the grid shows up as a difference).
+    from ..core.interp import Interp as _Interp
+    r0_, r2_ = X.atom('r_first', 'pos'), X.atom('r_last', 'pos')
+    ra_, rb_ = X.atom('r_mid_A', 'pos'), X.atom('r_mid_B', 'pos')
+    def grid(mid):
+        rr_ = [r0_, mid, r2_]
+        return Arr('r', default=lambda k: rr_[k], shape=(3,))
+    yy = Arr('y', default=lambda k: X.atom(f'yh{k[0]}_{k[1]}', 'complex'), shape=(6, 3))
+    mu3 = Arr('mu', default=lambda k: X.atom(f'muh{k}', 'complex'), shape=(3,)); K3 = Arr('K', default=lambda k: X.atom(f'Kh{k}', 'complex'), shape=(3,))
+    dh = X.Decider(seed=chk.seed + 47, k=2)
+    for fker, nm_ in ((fs, 'sensitivity_to_shear'), (fb, 'sensitivity_to_bulk')):
+        ith = _Interp(repo, hooks=dict(it.hooks))
+        first = kernel_paths(ith, m, fker, [yy, grid(ra_), mu3, K3, 2])
+        second = kernel_paths(ith, m, fker, [yy, grid(rb_), mu3, K3, 2])
+        fresh = kernel_paths(_Interp(repo, hooks=dict(it.hooks)), m, fker, [yy, grid(rb_), mu3, K3, 2])
+        ok = len(second) == len(fresh) and all(dh.equal(X.lift(a_[1].get(k_)), X.lift(b_[1].get(k_))) for a_, b_ in zip(second, fresh) for k_ in (0, 1, 2)
+                                                   if not (isinstance(a_[1].get(k_), X.Node) and a_[1].get(k_) is b_[1].get(k_)))
+        chk.ob('R05.13', f'{nm_} called for a grid and then for another grid with the same slice count and end points: the second result is what a fresh call returns for that grid', ok,
+               '' if ok else 'the second call returns values that depend on the first grid (state kept between calls under a key that does not identify the grid)', m.where(fker), key=f'R05.13|{nm_}',
+               method='two successive calls in one interpreter state (module-level state persists) + GF(p^2) PIT against a fresh state')
+    chk.floor('R05.13', 2)
     # (b) surface value
     l = X.atom('l', 'pos'); R = X.atom('R_planet', 'pos'); fpG = X.atom('fourpiG', 'pos')
     y5 = X.atom('y5_surface', 'complex'); y1 = X.atom('y1_surface', 'complex'); y3 = X.atom('y3_surface', 'complex')
